@@ -90,6 +90,14 @@ Proof.
 Qed.
 
 (* ---- the time bound ---- *)
+(* the numbers of the property statement: "within its timeout (2 s) plus a small
+   margin".  [small_margin_ms] is what this development accepts as small on the
+   real wall clock; [slack_ms] of it is reserved for process creation and
+   scheduling, which the model does not have. *)
+Definition prop_timeout_ms : Z := 2000.
+Definition small_margin_ms : Z := 600.
+Definition slack_ms : Z := 400.
+
 Definition time_le (t : time) (bound : Z) : Prop := exists ms, t = At ms /\ ms <= bound.
 
 Lemma cmd_output_bounded T d b :
